@@ -21,10 +21,13 @@ def main():
             print(f"missing {f} in {src}"); return 2
     scratch = f"/tmp/sv-{sid}"
     sh(f"git -C /repo worktree remove --force {scratch}")
-    r = sh(f"git -C /repo worktree add -q --detach {scratch} HEAD")
+    # --base <commit>: the agent worked on an older commit and a later fix: commit touches the same lines (the self-test then
+    # builds <base> + patch + the later fixes that still apply)
+    base_rev = rest[rest.index("--base") + 1] if "--base" in rest else "HEAD"
+    r = sh(f"git -C /repo worktree add -q --detach {scratch} {base_rev}")
     if r.returncode: print(r.stderr); return 2
     meta = {"id": sid, "property": prop, "source": "independent sub-agent given only the property text and a scratch worktree",
-            "base_commit": sh("git -C /repo rev-parse --short HEAD").stdout.strip(), "ran": []}
+            "base_commit": sh(f"git -C /repo rev-parse --short {base_rev}").stdout.strip(), "ran": []}
     try:
         env = dict(os.environ, PYTHONPATH=os.path.join(scratch, "src")); env.pop("COVERAGE_PROCESS_START", None)
         demo = os.path.join(src, "demo.py")
